@@ -269,6 +269,37 @@ func (f *frame) contractCall(callee *ssa.Function, ct *Contract, c *ssa.CallComm
 	for _, w := range ct.Watch {
 		_ = w
 	}
+	// Interior pointers (&x.f, &s[i]) passed as arguments: the callee's contract speaks about *p as a
+	// standalone cell; copy the caller's location into that cell before, and back after the call.
+	type alias struct {
+		addr Term
+		T    types.Type
+		pd   *ptrDesc
+	}
+	var aliases []alias
+	if c != nil {
+		for _, a := range c.Args {
+			pd := f.ptrDescOf(a)
+			if pd == nil || isStructPtr(a.Type()) {
+				continue
+			}
+			if _, isPtr := a.Type().Underlying().(*types.Pointer); !isPtr {
+				continue
+			}
+			if pd.kind == pdField || (pd.kind == pdElem && pd.obj.valid()) || pd.kind == pdLocal {
+				T := deref(a.Type())
+				if isStructType(T) {
+					continue
+				}
+				if _, isArr := T.Underlying().(*types.Array); isArr {
+					continue
+				}
+				addr := f.val(a)
+				f.elemWrite(T, addr, i64(0), f.load(addr, T, pd))
+				aliases = append(aliases, alias{addr, T, pd})
+			}
+		}
+	}
 	pre := f.st
 	f.checkPre(callee, ct, args, pos)
 	// effects
@@ -313,6 +344,9 @@ func (f *frame) contractCall(callee *ssa.Function, ct *Contract, c *ssa.CallComm
 		vc.assume(env.eval(cl.expr))
 	}
 	vc.watch = savedWatch
+	for _, al := range aliases {
+		f.store(al.addr, al.T, al.pd, f.elemRead(f.st, al.T, al.addr, i64(0)))
+	}
 	// fold the callee-relative events into the caller's ghost state
 	for cw := range described {
 		if !vc.watch[cw] {
